@@ -8,7 +8,7 @@
    use.  Not proved (tested by the oracle, see evidence tested_only): the face/basis counts and
    closedness (each simplex of order k has k+1 faces of order k-1 and a basis of k+1 points). *)
 From Coq Require Import String ZArith Bool Arith List.
-From SV Require Import Names NamesFacts ListFacts Rep Fresh Complex Atomic RepInv Reach.
+From SV Require Import Names NamesFacts ListFacts Rep Fresh Complex Atomic RepInv Reach Homology Filtration Gen World Small Sweeps.
 Import ListNotations.
 
 (* the invariant holds after any sequence of add / relabel / delete requests on the representation,
@@ -76,3 +76,17 @@ Example C01_example :
                             OpForceDelete (NStr "1d1")] (empty_rep 1) in
   simplices r false = [NStr "1d0"; NTup [NInt 2]; NStr "1d2"].
 Proof. vm_compute. reflexivity. Qed.
+
+(* BOUNDED (computed by the kernel): the full sentence of C01 -- k+1 distinct faces of order k-1,
+   a basis of k+1 points, faces spanning the k-subsets of the basis, no shared basis, maxOrder the
+   largest populated order, listings partitioning simplices() -- as the boolean wfb, for every
+   complex on at most 4 labelled points, and again after every deletion / restriction / addition
+   by basis / subdivision applied to it (wfb is part of each of these sweeps) *)
+Theorem C01_wellformed_upto4_partial : forall c, In c complexes4 ->
+  fam_eq (fam (build c)) (closure_of c) && wfb (build c) && viewsb (build c) = true.
+Proof. exact built_complexes_upto4. Qed.
+Print Assumptions C01_wellformed_upto4_partial.
+Theorem C01_wellformed_after_mutation_upto4_partial : forall c, In c complexes4 ->
+  chk_delete (build c) = true /\ chk_restrict (build c) = true /\ chk_addb (build c) = true /\ chk_subdiv (build c) = true.
+Proof. intros c H. repeat split; [now apply delete_upto4 | now apply restrict_upto4 | now apply addb_upto4 | now apply subdiv_upto4]. Qed.
+Print Assumptions C01_wellformed_after_mutation_upto4_partial.
